@@ -4,6 +4,7 @@ import Hive.Proofs.SerixJsonDeep
 import Hive.Proofs.SerixJsonCanon
 import Hive.Proofs.SerixJsonCanonId
 import Hive.Proofs.SerixJsonEncOrder
+import Hive.Proofs.SerixJsonNoDup
 import Hive.Spec.SerixJsonSource
 import Hive.Gen.C01b_Facts
 /-!
@@ -92,6 +93,26 @@ theorem C01_json_key_order_irrelevant (t : JTy) (j j' : Json) (v : Val) (hp : JP
     (hn : NoDupKeys j) (h : mapDecode fc o t j = .ok v) :
     ∃ v', mapDecode fc o t j' = .ok v' ∧ VEquiv v v' :=
   deep_ty fc o t j j' v hp hn h
+
+/-- **The encoder never writes two members of one name** — for any type (expressible or not) and any value: every
+object is built with `orderedmap.Set`, which overwrites.  So the hypothesis `NoDupKeys j` of
+`C01_json_key_order_irrelevant` holds for every document `MapEncode` itself produced (for documents that went through
+`json.Unmarshal` it holds because a `map[string]any` has no duplicate keys). -/
+theorem C01_json_encode_no_duplicate_members (t : JTy) (v : Val) (j : Json) (h : mapEncode fc o t v = .ok j) :
+    NoDupKeys j :=
+  nodup_ty fc o t v j h
+
+/-- **The round trip does not depend on Go's map iteration order on either side, at any depth.**  `v'` is `v` with
+the entries of its maps visited in another order (`VEquiv`): if `v` can be encoded, so can `v'`, and what the decoder
+makes of the document written for `v'` — whose objects it may moreover walk in any order
+(`C01_json_key_order_irrelevant`) — is the same Go value as the documented result `canon t v` for `v`. -/
+theorem C01_json_roundtrip_any_order (htot : fc.Total) (t : JTy) (v v' : Val) (j : Json) (ht : JsonExpressible t)
+    (hv : WellTyped fc t v) (hq : VEquiv v v') (h : mapEncode fc o t v = .ok j) :
+    ∃ j' w, mapEncode fc o t v' = .ok j' ∧ mapDecode fc o t j' = .ok w ∧ VEquiv (canon fc t v) w := by
+  obtain ⟨j', hj', hp⟩ := encord_ty fc o t v v' j ht hv hq h
+  have hd := (rtc_ty fc o htot t v j ht hv h).1
+  obtain ⟨w, hw, he⟩ := deep_ty fc o t j j' _ hp (nodup_ty fc o t v j h) hd
+  exact ⟨j', w, hj', hw, he⟩
 
 /-- one object, struct-like targets, exact equality (value or error): a struct with embedded /
 inlined fields, a typed byte array, an interface, a pointer to one of them read the object only by
